@@ -19,3 +19,10 @@ func ctxPID(c *driver.Context) vm.PID             { return 0 }
 
 func verifQueues(d *driver.Driver) []*driver.CommandQueue { return nil }
 func verifNumListeners(q *driver.CommandQueue) int        { return 0 }
+
+// EmuPlatform exists only in the instrumented build.
+func EmuPlatform(program string) Scenario {
+	return Scenario{Name: "emu-1gpu-" + program, Threads: 1, Main: func(rt RT, o Opts) {
+		panic("EmuPlatform needs the E3 (instrumented) build")
+	}}
+}
